@@ -370,7 +370,15 @@ def gen_multipart(rng, boundary):
     for _ in range(nparts):
         out.append(b'--' + b + pick(rng, [b'\r\n'] * 8 + [b'\n', b'  \r\n', b'\t\r\n']))
         hdrs = []
-        d = pick(rng, DISPOSITIONS)
+        r0 = rng.random()
+        if r0 < 0.30:
+            d = 'form-data; name="%s"' % pick(rng, ['a', 'b', 'a', 'key', 'self', 'n\xe4me'])      # a plain field
+        elif r0 < 0.40:
+            d = 'form-data; name="f"; filename="%s"' % pick(rng, ['x.txt', 'x.txt', '', 'a b.bin', '\xe9.txt', '../x', 'C:\\x'])
+        elif r0 < 0.43:
+            d = pick(rng, ['form-data; name=""a""', 'form-data; name="f"; filename=""x""'])
+        else:
+            d = pick(rng, DISPOSITIONS)
         if rng.random() < 0.3:
             d = sanitize(mutate(rng, d))
         if rng.random() < 0.92:
@@ -500,7 +508,7 @@ COMMON_HEADERS = ['Range', 'If-Match', 'If-None-Match', 'If-Modified-Since', 'If
 
 TARGETS = ['plain', 'args', 'static', 'file', 'sess', 'fsess', 'cache', 'basic', 'digest', 'json', 'upload', 'form', 'neg',
            'etag', 'decode', 'proxy', 'autovary', 'referer', 'dir', 'rest', 'index', 'missing', 'redir', 'echo', 'tsx',
-           'stream', 'combo', 'vhost', 'psub', 'szip', 'limit', 'lcache']
+           'stream', 'combo', 'vhost', 'psub', 'szip', 'limit', 'lcache', 'raw']
 # relevant elements per target: (header names always worth sending there)
 RELEVANT = {
     'static': ['Range', 'If-Range', 'If-Modified-Since', 'If-Unmodified-Since', 'If-None-Match', 'If-Match',
@@ -520,7 +528,7 @@ RELEVANT = {
               'X-Ignore'],
     'vhost': ['Host', 'X-Forwarded-Host', 'Host'], 'psub': ['X-Forwarded-Host', 'X-Forwarded-Proto', 'X-Forwarded-For', 'Host'],
     'szip': ['Range', 'If-Range', 'If-Modified-Since', 'If-None-Match', 'Accept-Encoding', 'Accept-Charset'],
-    'limit': [], 'lcache': ['Cache-Control', 'If-Modified-Since', 'If-None-Match', 'If-Unmodified-Since', 'If-Match', 'Range'],
+    'raw': [], 'limit': [], 'lcache': ['Cache-Control', 'If-Modified-Since', 'If-None-Match', 'If-Unmodified-Since', 'If-Match', 'Range'],
 }
 PATHS = {
     'plain': ['/plain', '/plain/x/y', '/plain/'], 'args': ['/args', '/args/1', '/args/1/2', '/args/1/2/3'],
@@ -534,7 +542,7 @@ PATHS = {
     'dir': ['/dir', '/dir/', '/sub', '/sub/', '/sub/index'], 'rest': ['/rest', '/rest/', '/rest/x'],
     'index': ['/', '', '//', '/index', '/index/'],
     'redir': ['/redir', '/redir/x'], 'echo': ['/echo', '/echo/x'], 'tsx': ['/tsx', '/tsx/', '/tsx/x/', '/tsx/x/y//'],
-    'limit': ['/limit'], 'lcache': ['/lcache', '/lcache/a'],
+    'limit': ['/limit'], 'lcache': ['/lcache', '/lcache/a'], 'raw': ['/raw'],
     'stream': ['/stream', '/gzstream', '/gzstream'], 'combo': ['/combo', '/combo/x', '/combo'], 'vhost': ['/vhost', '/vhost/', '/vhost/x'],
     'psub': ['/psub', '/psub/', '/osub'],
     'szip': ['/szip/hello.txt', '/szip/', '/szip', '/szip/index.html', '/szip/missing'],
@@ -550,7 +558,7 @@ def gen_case(rng, target=None, digest_ctx=None):
     """One request case for `target` (mostly valid, with a malformed stream)."""
     target = target or pick(rng, TARGETS)
     path = pick(rng, PATHS[target])
-    bodyful = target in ('json', 'upload', 'form', 'decode', 'limit') or (target in ('plain', 'rest', 'args', 'basic', 'digest',
+    bodyful = target in ('json', 'upload', 'form', 'decode', 'limit', 'raw') or (target in ('plain', 'rest', 'args', 'basic', 'digest',
                                                                             'cache', 'sess', 'redir', 'echo', 'combo')
                                                                and rng.random() < 0.35)
     if bodyful:
@@ -558,6 +566,8 @@ def gen_case(rng, target=None, digest_ctx=None):
     else:
         method = pick(rng, METHODS)
     qs = sanitize(mutated(rng, gen_qs(rng), 0.35)) if rng.random() < 0.6 else ''
+    if target == 'raw' and rng.random() < 0.8:
+        qs = 'mode=' + pick(rng, ['lines', 'hint', 'line', 'file', 'read'])
     if rng.random() < 0.25 and target not in ('index', 'missing'):
         path = '/d' + path          # the same resource with every tool's debug switch on
     headers = []
@@ -566,7 +576,7 @@ def gen_case(rng, target=None, digest_ctx=None):
         headers.append(['Host', 'localhost:8080' if rng.random() < 0.8 else gen_host(rng)])
     body = ''
     if method in ('POST', 'PUT', 'PATCH') or (bodyful and rng.random() < 0.5):
-        kind = {'json': 'json', 'upload': 'multipart', 'form': 'urlencoded', 'decode': 'urlencoded'}.get(target) \
+        kind = {'json': 'json', 'upload': 'multipart', 'form': 'urlencoded', 'decode': 'urlencoded', 'raw': 'raw'}.get(target) \
             or pick(rng, ['urlencoded', 'multipart', 'json', 'none', 'raw'])
         if rng.random() < 0.08:
             kind = pick(rng, ['urlencoded', 'multipart', 'json', 'raw', 'none'])
@@ -581,8 +591,8 @@ def gen_case(rng, target=None, digest_ctx=None):
             body = gen_json(rng)
             ct = gen_content_type(rng, pick(rng, ['application/json'] * 4 + ['text/javascript', 'application/json-x']))
         elif kind == 'raw':
-            body = pick(rng, ['', 'raw bytes \xff\x00', 'a=1'])
-            ct = gen_content_type(rng)
+            body = pick(rng, ['', 'raw bytes \xff\x00', 'a=1', 'line1\nline2\r\nline3', '\n' * 40, 'x' * 70000, 'no newline at all'])
+            ct = gen_content_type(rng, pick(rng, ['text/plain', 'application/octet-stream', 'text/xml', 'x', None]))
         if ct is not None and rng.random() < 0.95:
             headers.append(['Content-Type', sanitize(mutated(rng, ct, 0.25))])
         # message framing: exact length, wrong length, none, chunked (server has de-chunked the body)
@@ -1168,7 +1178,7 @@ def chunked_cases(rng, n=300):
     (possibly malformed) bodies, then the framing itself damaged: sizes, terminators, truncation, trailers, limit."""
     out = []
     for _ in range(n):
-        path = pick(rng, ['/form', '/form', '/upload', '/json', '/plain', '/limit', '/decode', '/basic', '/cache/ch', '/rest'])
+        path = pick(rng, ['/form', '/form', '/upload', '/json', '/plain', '/limit', '/decode', '/basic', '/cache/ch', '/rest', '/raw'])
         method = pick(rng, ['POST', 'POST', 'POST', 'PUT', 'PATCH', 'GET', 'DELETE'])
         kind = {'/upload': 'multipart', '/json': 'json'}.get(path) or pick(rng, ['urlencoded', 'urlencoded', 'multipart', 'json'])
         if kind == 'urlencoded':
@@ -1181,6 +1191,10 @@ def chunked_cases(rng, n=300):
         data = body.encode('latin-1')
         hs = [['Content-Type', sanitize(ct)]]
         c = _base('chunked', method, path, pick(rng, PROTOS + ['HTTP/1.1']), [])
+        if path == '/raw':
+            c['qs'] = 'mode=' + pick(rng, ['lines', 'hint', 'line', 'file', 'read'])
+            if rng.random() < 0.6:
+                ct = pick(rng, ['text/plain', 'application/octet-stream'])
         c['headers'] = [h for h in c['headers'] if h[0] not in ('Content-Type', 'Content-Length')] + hs
         if rng.random() < 0.25:
             # declared length, read through KnownLengthRFile (a short body ends early, a long one is cut)
